@@ -23,7 +23,7 @@ Positions == {<<"top", k>> : k \in TopLevel}
         \cup {<<s>> : s \in Sections}
         \cup {<<s, "entry">> : s \in Sections}
         \cup UNION {{<<s, "entry", f>> : f \in FieldsOf(s)} : s \in Sections}
-LineClasses == {"kv", "kempty", "emptykey", "nokv", "blank", "kvv", "comment", "spaces", "crlf", "dq", "sq", "quoted"}
+LineClasses == {"kv", "kempty", "emptykey", "blankkey", "nokv", "blank", "kvv", "comment", "spaces", "crlf", "dq", "sq", "quoted"}
 VARIABLES kind, pos, shape, lines, missing
 vars == <<kind, pos, shape, lines, missing>>
 Init == \/ /\ kind = "doc" /\ pos \in Positions /\ shape \in Shapes /\ lines = <<>> /\ missing = FALSE
@@ -33,7 +33,7 @@ Init == \/ /\ kind = "doc" /\ pos \in Positions /\ shape \in Shapes /\ lines = <
 Next == UNCHANGED vars
 Outcomes == {"Loaded", "Rejected"}
 \* (dq / sq: the value is a single quote character; quoted: a value in double quotes)
-LineOK(c) == c \in {"kv", "kempty", "blank", "kvv", "comment", "spaces", "crlf", "dq", "sq", "quoted"}
+LineOK(c) == c \in {"kv", "kempty", "blankkey", "blank", "kvv", "comment", "spaces", "crlf", "dq", "sq", "quoted"}   \* (a name of blanks only is a name)
 \* predicted outcome, "any" where the weak-typing rules are not transcribed
 Predicted == IF kind = "envfile"
                THEN (IF missing \/ \E i \in DOMAIN lines : ~LineOK(lines[i]) THEN "Rejected" ELSE "Loaded")
